@@ -205,6 +205,35 @@ def run_case(case):
             if style == "table":
                 return tab[tuple(jd)]
             return formula(jd)
+        # the joint function is "a callable taking the joint degree tuple": a plain function, one with further defaulted
+        # parameters, a callable object, a bound method, a functools.partial
+        form = rng.choice(["function", "function", "defaulted-extra-parameter", "two-defaulted-extra-parameters", "callable-object", "bound-method", "partial"])
+        res.seen("joint_function_forms", form)
+        if form != "function":
+            res.count("joint_functions_in_another_callable_form")
+        fp_plain = fp
+        if form == "defaulted-extra-parameter":
+            def fp(jd, rho=0.5):
+                return fp_plain(jd)
+        elif form == "two-defaulted-extra-parameters":
+            def fp(jd, rho=0.5, scale=1.0):
+                return fp_plain(jd)
+        elif form == "callable-object":
+            class _Joint:
+                def __call__(self, jd, rho=0.5):
+                    return fp_plain(jd)
+            fp = _Joint()
+        elif form == "bound-method":
+            class _Model:
+                def joint(self, jd, rho=0.5):
+                    return fp_plain(jd)
+            fp = _Model().joint
+        elif form == "partial":
+            import functools
+
+            def _three(jd, rho, scale):
+                return fp_plain(jd)
+            fp = functools.partial(_three, scale=1.0, rho=0.5)
         got = both(gcmpy.JointDegreeFunction, "function", {N.FP: fp, N.MOTIF_SIZES: sizes, N.LOW_HIGH_DEGREE_BOUND: bounds})
         if got is None:
             return res
